@@ -4,7 +4,7 @@ import itertools
 import json
 
 from harness import core, project as P
-from harness.common import pmap, score_abs
+from harness.common import pmap, score_abs, build
 
 FLAGS = list(itertools.product([False, True], repeat=4))
 
@@ -15,6 +15,9 @@ def build_route(score, route, rng_seed):
         return P.seq_from_abs(ms)
     if route == "rel":
         return P.seq_from_rel(P.abs_to_rel(ms))
+    if route == "late":
+        # note by note, later notes first: events of one tick end up in another stored order
+        return build(score, "late")
     # "shuffled": absolute insertion in another order that keeps the order of equal-tick events
     import random
     r = random.Random(rng_seed)
@@ -82,7 +85,7 @@ def run(ctx):
         pairs = ctx.generate("Gen_Equals", "Gen_Equals.cfg", env={"VERIF_TIER": ctx.tier})
         cases = []
         for p in pairs:
-            routes = ["abs", "rel", "shuffled"] if p["kind"] == "none" or ctx.thorough else [("abs", "rel", "shuffled")[len(cases) % 3]]
+            routes = ["abs", "rel", "shuffled", "late"] if p["kind"] == "none" or ctx.thorough else [("abs", "rel", "shuffled", "late")[len(cases) % 4]]
             for r in routes:
                 cases.append((len(cases), p, r))
     obs = pmap(execute, cases, chunk=300)
